@@ -32,7 +32,8 @@ MANIFEST = {
              "write wins), a read returns abs, shift moves abs by exactly k, NaN-strict binary operators act pointwise on abs after "
              "alignment including numpy's 1-vs-n variant broadcasting, clip/slices/element-wise apply/overlay/underlay (by span)/replace_where are "
              "one equation on abs each, row statistics are the function's fold over the variants of each period, moving windows the "
-             "missing-strict function of the window abs(t-|w|+1..t); for fill_missing the neighbour rule is proved per column (its lifting to "
+             "missing-strict function of the window abs(t-|w|+1..t), extrapolate satisfies the AR recursion cell by cell on abs with the lags in "
+             "the documented order and leaves the history untouched; for fill_missing the neighbour rule is proved per column (its lifting to "
              "abs) and for hstack the value equation rest on the correspondence run; trim leaves abs unchanged and establishes "
              "'no all-missing leading/trailing row, all-missing = empty series without start'; well-formedness is preserved by every "
              "operation and lifted to arbitrary op sequences over a pool by induction (reachable_inv). The model is tied to the code on "
@@ -40,9 +41,9 @@ MANIFEST = {
              "rationals), and an independent dict-based map oracle plus heap-level isolation checks (non-receivers unchanged, functional "
              "results share no memory with inputs) run on the real objects and supply the replay."),
     "design": "7/C10",
-    "note": ("numpy dtype promotion/printing, the state left by a write that raises half-way, extrapolate, median/std/var/quantiles, "
+    "note": ("numpy dtype promotion/printing, the state left by a write that raises half-way, extrapolate(log=True), median/std/var/quantiles, "
              "log_linear/from_series fills and transcendental element-wise functions are outside the model; mean/nanmean/mov_avg/linear "
-             "fills are compared with tolerance 1e-9 (class T) when a divisor is not a power of two; aliasing is a heap fact checked at "
+             "fills and extrapolate (scipy lfilter) are compared with tolerance 1e-9 (class T) when a divisor is not a power of two; aliasing is a heap fact checked at "
              "run time, not proved."),
     "technique": "Lean 4 proof (refinement of an executable model to a map) + op-sequence differential correspondence + heap isolation oracle",
 }
